@@ -239,15 +239,15 @@ class IPPORouting(Case):
     assumptions = ("observation labels pairwise distinct (rows are identified by their observation)",)
     site = "IPPO.get_action/routing"
 
-    def __init__(self, A, E):
-        self.A, self.E = A, E
-        self.name = f"ippo-routing-A{A}-E{E}"
-        self.bounds = {"homogeneous_agents": A, "num_envs": E, "symbolic": "observations, per-row policy outputs"}
+    def __init__(self, A, E, ids=None):
+        self.A, self.E, self.ids = A, E, ids
+        self.name = f"ippo-routing-A{A}-E{E}" + ("" if ids is None else "-ids-" + ".".join(ids))
+        self.bounds = {"homogeneous_agents": A, "num_envs": E, "agent_ids_in_construction_order": ids or "ag_0..", "symbolic": "observations, per-row policy outputs"}
         self._agent = None
 
     def agent(self):
         if self._agent is None:
-            ids = [f"ag_{i}" for i in range(self.A)]
+            ids = list(self.ids) if self.ids else [f"ag_{i}" for i in range(self.A)]
             self._agent = IPPO([spaces.Box(-1, 1, (2,))] * self.A, [spaces.Discrete(3)] * self.A, agent_ids=ids)
         return self._agent
 
@@ -352,7 +352,8 @@ def cases(tier):
     cs += [PrepComposite("dict", ()), PrepComposite("dict", (2,)), PrepComposite("tuple", (2,)), PrepComposite("tuple", ())]
     for sp in ("box1", "box0", "image", "discrete3", "multidiscrete", "multibinary", "dict", "tuple"):
         cs += [VectDim(sp, ()), VectDim(sp, (3,))]
-    cs += [IPPORouting(2, 2), IPPORouting(3, 1), IPPORouting(1, 2), CriticStack(2, 2), CriticStack(3, 1)]
+    cs += [IPPORouting(2, 2), IPPORouting(3, 1), IPPORouting(1, 2), CriticStack(2, 2), CriticStack(3, 1),
+           IPPORouting(3, 2, ids=["ag_2", "ag_10", "ag_1"]), IPPORouting(2, 1, ids=["ag_b", "ag_a"])]
     if tier == "thorough":
         for sp in ("box2", "image", "multidiscrete", "discrete3", "box4"):
             cs += [Prep(sp, (3,)), Prep(sp, (2, 3))]
